@@ -556,7 +556,7 @@ impl<'a> Core<'a> {
             self.out.heap_checks += 1;
             let mut fp_shape = None;
             if !self.monitor_dead {
-                match crate::monitor::check_heap(&self.mem, heap_reg, free_reg, &roots) {
+                match crate::monitor::check_heap(&self.mem, heap_reg, free_reg, &roots, want_snap) {
                     Ok(sh) => {
                         self.log.add(sh.frontier ^ (sh.r as u64) << 48);
                         fp_shape = Some(sh.clone());
